@@ -1,12 +1,370 @@
 // Contract harnesses for statime-wire/src/common/tlv.rs (child module: sees private items).
+// Property C41 (PTP wire round trip): TLV type codec, single TLV codec, TlvSet::deserialize,
+// TlvSetIterator, TlvSetBuilder.
 #![allow(unused_imports)]
 use super::*;
 
+/// A TLV type is *canonical* when it is the value the parser produces for its own wire code
+/// (the payload of Reserved/Legacy/Experimental lies in the range that variant stands for).
+/// `TlvType` is a public enum with public payloads, so non-canonical values (e.g. `Reserved(1)`)
+/// can be written down by a caller; they serialise to the code of ANOTHER variant.
+pub(crate) fn tlv_type_canonical(t: TlvType) -> bool {
+    TlvType::from_primitive(t.to_primitive()) == t
+}
+
+pub(crate) fn any_tlv_type() -> TlvType {
+    // every variant, every payload
+    let v: u16 = kani::any();
+    match kani::any::<u8>() {
+        0 => TlvType::Reserved(v),
+        1 => TlvType::Legacy(v),
+        2 => TlvType::Experimental(v),
+        _ => TlvType::from_primitive(v),
+    }
+}
+
+// ---------------------------------------------------------------- TLV type codec (complete)
+
+/// post: parse(code).code == code for every 16-bit code (serialise∘parse = id on the wire);
+/// parse(serialise(t)) == t for every canonical t; announce_propagate depends on the code only.
+#[kani::proof]
+fn c41_p_tlvtype_codec() {
+    let v: u16 = kani::any();
+    let t = TlvType::from_primitive(v);
+    assert!(t.to_primitive() == v);
+    assert!(tlv_type_canonical(t));
+    let u = any_tlv_type();
+    if tlv_type_canonical(u) {
+        assert!(TlvType::from_primitive(u.to_primitive()) == u);
+    }
+    assert!(u.announce_propagate() == TlvType::from_primitive(u.to_primitive()).announce_propagate());
+    kani::cover!(!tlv_type_canonical(u), "non-canonical TlvType values exist (public enum payload)");
+    kani::cover!(matches!(t, TlvType::CsptpResponse), "named variant reachable");
+}
+
+// ---------------------------------------------------------------- single TLV codec
+
+const VMAX: usize = 8;
+
+/// post (round trip m -> bytes -> m): for every canonical type and every value of length <= 8
+/// (bound; the code is length-generic: one copy_from_slice), serialising into any sufficiently
+/// large buffer and parsing yields an equal TLV, whatever follows it in the buffer;
+/// too small a buffer gives Err and never panics.
+#[kani::proof]
+#[kani::unwind(10)]
+fn c41_b_tlv_roundtrip() {
+    let val: [u8; VMAX] = kani::any();
+    let n: usize = kani::any();
+    kani::assume(n <= VMAX);
+    let t = any_tlv_type();
+    kani::assume(tlv_type_canonical(t));
+    let tlv = Tlv { tlv_type: t, value: (&val[..n]).into() };
+    let mut buf: [u8; VMAX + 6] = kani::any();
+    let blen: usize = kani::any();
+    kani::assume(blen <= VMAX + 6);
+    let r = tlv.serialize(&mut buf[..blen]);
+    if blen >= 4 + n {
+        assert!(r.is_ok());
+        assert!(tlv.wire_size() == 4 + n);
+        let back = Tlv::deserialize(&buf[..blen]);
+        assert!(back.is_ok());
+        let back = back.unwrap();
+        assert!(back.tlv_type == t);
+        assert!(back.value.len() == n);
+        assert!(back.value.as_ref() == &val[..n]);
+        assert!(back == tlv);
+        // wire layout: type, length, value
+        assert!(u16::from_be_bytes([buf[0], buf[1]]) == t.to_primitive());
+        assert!(u16::from_be_bytes([buf[2], buf[3]]) as usize == n);
+    } else {
+        assert!(r.is_err());
+    }
+    kani::cover!(r.is_ok() && n == 0, "empty-valued TLV serialisable");
+    kani::cover!(r.is_ok() && n == VMAX, "largest bounded TLV serialisable");
+    kani::cover!(r.is_err(), "short buffer reachable");
+}
+
+/// post (bytes -> m -> bytes): every byte string (<= 16 bytes) that parses as a TLV re-serialises to
+/// exactly the consumed prefix; parsing never panics.
+#[kani::proof]
+#[kani::unwind(18)]
+fn c41_b_tlv_reparse() {
+    const N: usize = 16;
+    let b: [u8; N] = kani::any();
+    let n: usize = kani::any();
+    kani::assume(n <= N);
+    let r = Tlv::deserialize(&b[..n]);
+    if let Ok(tlv) = r {
+        let w = tlv.wire_size();
+        assert!(w <= n && w >= 4);
+        let mut out: [u8; N] = kani::any();
+        assert!(tlv.serialize(&mut out[..w]).is_ok());
+        assert!(out[..w] == b[..w]);
+        kani::cover!(w == 4, "empty value parsed");
+        kani::cover!(w == N, "full buffer parsed");
+    } else {
+        // rejected exactly when the declared length does not fit
+        assert!(n < 4 || n < 4 + u16::from_be_bytes([b[2], b[3]]) as usize);
+    }
+    kani::cover!(true, "reachable");
+}
+
+// ---------------------------------------------------------------- TLV set parsing and iteration
+
+/// Walks a validated set with the REAL iterator and checks that it reproduces the bytes.
+/// Returns the number of TLVs. `max` bounds the loop.
+fn walk_and_check(set: &TlvSet<'_>, max: usize) -> usize {
+    let bytes = set.bytes;
+    let mut it = TlvSetIterator { buffer: set.bytes };
+    let mut off = 0usize;
+    let mut count = 0usize;
+    let mut i = 0;
+    while i <= max {
+        match it.next() {
+            None => break,
+            Some(tlv) => {
+                // each item is the TLV found at the running offset
+                assert!(off + 4 <= bytes.len());
+                assert!(tlv.tlv_type.to_primitive() == u16::from_be_bytes([bytes[off], bytes[off + 1]]));
+                let l = u16::from_be_bytes([bytes[off + 2], bytes[off + 3]]) as usize;
+                assert!(tlv.value.len() == l);
+                assert!(off + 4 + l <= bytes.len());
+                // forall j < l: value[j] == bytes[off+4+j] (symbolic index instead of a loop)
+                let j: usize = kani::any();
+                if j < l {
+                    assert!(tlv.value[j] == bytes[off + 4 + j]);
+                }
+                off += 4 + l;
+                count += 1;
+            }
+        }
+        i += 1;
+    }
+    // iterator terminated within the bound, is fused, and covered the whole set
+    assert!(i <= max);
+    assert!(it.next().is_none());
+    assert!(off == bytes.len());
+    count
+}
+
+macro_rules! tlvset_parse_harness {
+    ($name:ident, $n:expr, $unwind:expr) => {
+        /// post: for every byte string of length <= N: TlvSet::deserialize does not panic and
+        /// terminates; Ok(set) => set.bytes is a prefix of (here: equals) the input, of even length,
+        /// and the real iterator walks it without panicking (its unwrap and debug_assert are
+        /// unreachable), yielding exactly the TLVs laid out in the bytes; the set re-serialises
+        /// to the same bytes. Err => the input really is not a sequence of even-length TLVs
+        /// (checked against an independent reference walk).
+        #[kani::proof]
+        #[kani::unwind($unwind)]
+        fn $name() {
+            const N: usize = $n;
+            let b: [u8; N] = kani::any();
+            let n: usize = kani::any();
+            kani::assume(n <= N);
+            let input = &b[..n];
+            let r = TlvSet::deserialize(input);
+            // independent reference: is the input a concatenation of even-length TLVs?
+            let mut off = 0usize;
+            let mut well_formed = true;
+            let mut k = 0;
+            while k <= N / 4 {
+                if off == n {
+                    break;
+                }
+                if n - off < 4 {
+                    well_formed = false;
+                    break;
+                }
+                let l = u16::from_be_bytes([b[off + 2], b[off + 3]]) as usize;
+                if l % 2 != 0 || l > n - off - 4 {
+                    well_formed = false;
+                    break;
+                }
+                off += 4 + l;
+                k += 1;
+            }
+            match r {
+                Ok(set) => {
+                    assert!(set.bytes.len() <= n);
+                    assert!(set.bytes == &input[..set.bytes.len()]);
+                    assert!(set.bytes.len() % 2 == 0);
+                    assert!(set.wire_size() == set.bytes.len());
+                    let cnt = walk_and_check(&set, N / 4);
+                    let mut out: [u8; N] = kani::any();
+                    let w = set.serialize(&mut out);
+                    assert!(w.is_ok() && w.unwrap() == set.bytes.len());
+                    assert!(out[..set.bytes.len()] == *set.bytes);
+                    // accepted => well formed and fully consumed
+                    assert!(well_formed);
+                    assert!(set.bytes.len() == n);
+                    kani::cover!(cnt >= 2, "two TLVs parsed");
+                    kani::cover!(n == N, "full-length input parsed");
+                    kani::cover!(n == 0, "empty set parsed");
+                }
+                Err(_) => {
+                    // STATEMENT: a well-formed set (which the serialiser can produce) must parse.
+                    let well_formed_set_rejected = well_formed;
+                    assert!(!well_formed_set_rejected);
+                }
+            }
+            kani::cover!(true, "reachable");
+        }
+    };
+}
+
+// bound: 12 bytes = the suffix bound used for whole messages; complete for that length
+tlvset_parse_harness!(c41_b_tlvset_parse_12, 12, 16);
+tlvset_parse_harness!(c41_tb_tlvset_parse_32, 32, 36);
+
+/// Same as above but WITHOUT the completeness clause (no claim about rejected inputs): isolates
+/// "never panics, accepted sets iterate safely and re-serialise to the input" from the known defect.
+macro_rules! tlvset_safety_harness {
+    ($name:ident, $n:expr, $unwind:expr) => {
+        #[kani::proof]
+        #[kani::unwind($unwind)]
+        fn $name() {
+            const N: usize = $n;
+            let b: [u8; N] = kani::any();
+            let n: usize = kani::any();
+            kani::assume(n <= N);
+            let input = &b[..n];
+            if let Ok(set) = TlvSet::deserialize(input) {
+                assert!(set.bytes.len() == n);
+                assert!(set.bytes.as_ptr() == input.as_ptr());
+                assert!(set.bytes.len() % 2 == 0);
+                let cnt = walk_and_check(&set, N / 4);
+                assert!(cnt <= N / 4);
+                let mut out: [u8; N] = kani::any();
+                let w = set.serialize(&mut out);
+                assert!(w.is_ok() && w.unwrap() == n);
+                let i: usize = kani::any();
+                if i < n {
+                    assert!(out[i] == input[i]);
+                }
+                kani::cover!(cnt >= 2, "two TLVs parsed");
+                kani::cover!(n == N, "full-length input parsed");
+            }
+            kani::cover!(true, "reachable");
+        }
+    };
+}
+tlvset_safety_harness!(c41_b_tlvset_safety_24, 24, 9);
+tlvset_safety_harness!(c41_tb_tlvset_safety_64, 64, 19);
+
+/// The serialiser side: a set built with the public TlvSetBuilder from up to two TLVs with
+/// even-length values (<= 4 bytes each; IEEE 1588 requires even lengthField) must parse back to
+/// an equal set, and iterating the BUILT set must yield exactly the TLVs that were added.
+/// (DESIGN.md suspected defect: `while buffer.len() > 4` / `len() <= 4`.)
+#[kani::proof]
+#[kani::unwind(20)]
+fn c41_b_tlvset_builder_roundtrip() {
+    let v1: [u8; 4] = kani::any();
+    let v2: [u8; 4] = kani::any();
+    let n1: usize = kani::any();
+    let n2: usize = kani::any();
+    kani::assume(n1 <= 4 && n1 % 2 == 0);
+    kani::assume(n2 <= 4 && n2 % 2 == 0);
+    let t1 = TlvType::from_primitive(kani::any());
+    let t2 = TlvType::from_primitive(kani::any());
+    let two: bool = kani::any();
+    let mut storage = [0u8; 16];
+    let mut builder = TlvSetBuilder::new(&mut storage);
+    let a = Tlv { tlv_type: t1, value: (&v1[..n1]).into() };
+    let b = Tlv { tlv_type: t2, value: (&v2[..n2]).into() };
+    assert!(builder.add(&a).is_ok());
+    if two {
+        assert!(builder.add(&b).is_ok());
+    }
+    let set = builder.build();
+    kani::cover!(two && n2 == 0, "built set ending in an empty-valued TLV");
+    kani::cover!(!two && n1 == 4, "single TLV");
+    assert!(set.bytes.len() == 4 + n1 + if two { 4 + n2 } else { 0 });
+    // parse what the serialiser produced
+    let mut wire = [0u8; 16];
+    let w = set.serialize(&mut wire).unwrap();
+    let parsed = TlvSet::deserialize(&wire[..w]);
+    let built_set_parses = parsed.is_ok();
+    assert!(built_set_parses);
+    assert!(parsed.unwrap() == set);
+}
+
+/// Iterating a set built by TlvSetBuilder yields exactly the added TLVs (no panic, none dropped).
+#[kani::proof]
+#[kani::unwind(20)]
+fn c41_b_tlvset_builder_iterate() {
+    let v1: [u8; 4] = kani::any();
+    let v2: [u8; 4] = kani::any();
+    let n1: usize = kani::any();
+    let n2: usize = kani::any();
+    kani::assume(n1 <= 4 && n1 % 2 == 0);
+    kani::assume(n2 <= 4 && n2 % 2 == 0);
+    let t1 = TlvType::from_primitive(kani::any());
+    let t2 = TlvType::from_primitive(kani::any());
+    let mut storage = [0u8; 16];
+    let mut builder = TlvSetBuilder::new(&mut storage);
+    let a = Tlv { tlv_type: t1, value: (&v1[..n1]).into() };
+    let b = Tlv { tlv_type: t2, value: (&v2[..n2]).into() };
+    assert!(builder.add(&a).is_ok());
+    assert!(builder.add(&b).is_ok());
+    let set = builder.build();
+    kani::cover!(n2 == 0, "built set ending in an empty-valued TLV");
+    kani::cover!(n2 == 4 && n1 == 0, "built set with empty TLV in front");
+    let mut it = TlvSetIterator { buffer: set.bytes };
+    let x = it.next();
+    assert!(x == Some(a));
+    let y = it.next();
+    let iterator_yields_last_tlv = y == Some(b);
+    assert!(iterator_yields_last_tlv);
+    assert!(it.next().is_none());
+}
+
+/// The same two obligations restricted to sets whose LAST TLV has a non-empty value: these must
+/// hold (shows the failures above are exactly the trailing-empty-TLV case).
+#[kani::proof]
+#[kani::unwind(20)]
+fn c41_b_tlvset_builder_roundtrip_nonempty_last() {
+    let v1: [u8; 4] = kani::any();
+    let v2: [u8; 4] = kani::any();
+    let n1: usize = kani::any();
+    let n2: usize = kani::any();
+    kani::assume(n1 <= 4 && n1 % 2 == 0);
+    kani::assume(n2 <= 4 && n2 % 2 == 0 && n2 > 0);
+    let t1 = TlvType::from_primitive(kani::any());
+    let t2 = TlvType::from_primitive(kani::any());
+    let mut storage = [0u8; 16];
+    let mut builder = TlvSetBuilder::new(&mut storage);
+    let a = Tlv { tlv_type: t1, value: (&v1[..n1]).into() };
+    let b = Tlv { tlv_type: t2, value: (&v2[..n2]).into() };
+    assert!(builder.add(&a).is_ok());
+    assert!(builder.add(&b).is_ok());
+    let set = builder.build();
+    let parsed = TlvSet::deserialize(set.bytes);
+    assert!(parsed.is_ok());
+    assert!(parsed.unwrap() == set);
+    let mut it = TlvSetIterator { buffer: set.bytes };
+    assert!(it.next() == Some(a));
+    assert!(it.next() == Some(b));
+    assert!(it.next().is_none());
+    // builder refuses what does not fit, without panicking
+    let mut small = [0u8; 6];
+    let mut bld = TlvSetBuilder::new(&mut small);
+    let r = bld.add(&Tlv { tlv_type: t2, value: (&v2[..n2]).into() });
+    assert!(r.is_ok() == (4 + n2 <= 6));
+    kani::cover!(n1 == 0, "empty TLV in front is fine");
+    kani::cover!(r.is_err(), "builder overflow reported as Err");
+}
+
+/// canary: claims that every 8-byte string is a valid TLV set (false: odd length, overrun).
+#[kani::proof]
+#[kani::unwind(8)]
+fn c41_canary_tlvset_accepts_everything() {
+    let b: [u8; 8] = kani::any();
+    assert!(TlvSet::deserialize(&b).is_ok());
+}
+
 #[cfg(all(kani, test))]
 mod replay {
-    extern crate std;
-    #[allow(unused_imports)]
-    use std::{vec, vec::Vec};
     use super::*;
     include!(concat!(env!("VERIF_REPLAY_DIR"), "/statime_wire__common__tlv.rs"));
 }
